@@ -1,7 +1,13 @@
 import NeumannModel.Raft.Lemmas
+import NeumannModel.Raft.Safety
 /-
-  C01 — property theorems, part 1: handler-level facts (for every node state and message).
-  System-level theorems (all interleavings) are in `NeumannModel.Raft.Safety`.
+  C01 — property theorems.
+  Part 1: handler-level facts (for every node state and message).
+  Part 2: system-level theorems for EVERY reachable state of `Raft/System.lean`, i.e. every
+  interleaving of message deliveries (arbitrary delay, reordering, duplication, loss), election
+  timeouts, pre-votes, proposals, replication and crash/restart events, on clusters of any size
+  (proof in `Raft/Safety.lean`: invariant `Inv`, `inv_step`, quorum intersection).
+  Part 3: the log theorems that are NOT yet proved are kept as full-strength `def`s.
 -/
 namespace Neumann.Raft.Props
 open Neumann.Raft
@@ -35,8 +41,8 @@ theorem ae_commit_le_covered (nd : Node) (t l pi pt : Nat) (es : List Entry) (lc
     by_cases h2 : aeLogOk (stepDown nd t).log pi pt = true
     · simp only [h2, if_true, aeAccept_commit, stepDown_commit]
       split <;> omega
-    · simp only [h2]; simp; omega
-  · rw [if_neg h1]; simp; omega
+    · simp only [h2]; simp <;> omega
+  · rw [if_neg h1]; simp <;> omega
 
 /-- commit index never decreases in `handle_append_entries` -/
 theorem ae_commit_monotone (nd : Node) (t l pi pt : Nat) (es : List Entry) (lc : Nat) :
@@ -88,6 +94,50 @@ theorem crash_keeps_persistent (nd : Node) :
     (crashRestart nd).log = nd.log ∧ (crashRestart nd).role = .follower := by
   simp [crashRestart]
 
+/-! ## Part 2 — all interleavings -/
+
+/-- **Election Safety**: in every reachable state at most one node is leader in any term. -/
+theorem election_safety (c : Config) (steps : List Step) (i j : Nat) (a b : Node)
+    (ha : (run c (initSys c) steps).nodes[i]? = some a)
+    (hb : (run c (initSys c) steps).nodes[j]? = some b)
+    (hla : a.role = .leader) (hlb : b.role = .leader) (hterm : a.term = b.term) : i = j :=
+  election_safety_of_inv c _ (inv_run c _ steps (inv_init c)) i j a b ha hb hla hlb hterm
+
+/-- **One vote per term, across crashes and restarts**: the history of all votes ever recorded
+    (every granted RequestVoteResponse in the network is in it, `granted_votes_are_recorded`)
+    never holds two different candidates for one voter and term. -/
+theorem vote_once_per_term (c : Config) (steps : List Step) (v t c1 c2 : Nat)
+    (h1 : (v, t, c1) ∈ (run c (initSys c) steps).ghost)
+    (h2 : (v, t, c2) ∈ (run c (initSys c) steps).ghost) : c1 = c2 :=
+  (inv_run c _ steps (inv_init c)).ghostFun v t c1 c2 h1 h2
+
+theorem granted_votes_are_recorded (c : Config) (steps : List Step) (src dst t v : Nat)
+    (h : (src, dst, Msg.requestVoteResp t true v) ∈ (run c (initSys c) steps).net) :
+    (src, t, dst) ∈ (run c (initSys c) steps).ghost :=
+  (inv_run c _ steps (inv_init c)).rvrInGhost src dst t v h
+
+/-- a leader holds recorded votes of a strict majority for its term -/
+theorem leader_has_quorum (c : Config) (steps : List Step) (i : Nat) (a : Node)
+    (ha : (run c (initSys c) steps).nodes[i]? = some a) (hl : a.role = .leader) :
+    c.quorum ≤ a.votes.length ∧ a.votes.Nodup ∧
+    ∀ v ∈ a.votes, (v, a.term, i) ∈ (run c (initSys c) steps).ghost := by
+  obtain ⟨h1, h2, h3⟩ := (inv_run c _ steps (inv_init c)).votesOk i a ha (by rw [hl]; intro h; cases h)
+  exact ⟨h3 hl, h2, h1⟩
+
+/-! ## Part 3 — full statements not yet proved (explored by the monitors of `corr_raft` on the
+    real cluster; they are NOT claimed as theorems) -/
+
+/-- two logs that agree on the term of a position agree on every earlier position -/
+def LogMatching (s : Sys) : Prop :=
+  ∀ (i j : Nat) (a b : Node), s.nodes[i]? = some a → s.nodes[j]? = some b →
+    ∀ k, k < a.log.length → k < b.log.length → (a.log[k]?).map (·.term) = (b.log[k]?).map (·.term) →
+      a.log.take (k + 1) = b.log.take (k + 1)
+
+/-- no two nodes ever report different entries committed at one position -/
+def StateMachineSafety (s : Sys) : Prop :=
+  ∀ (i j : Nat) (a b : Node), s.nodes[i]? = some a → s.nodes[j]? = some b →
+    ∀ k, k < a.commit → k < b.commit → a.log[k]? = b.log[k]?
+
 /-! ### Pre-fix handlers: concrete witnesses that the repaired facts were false. -/
 
 /-- old follower with a stale 2-entry log acknowledges index 2 on an EMPTY heartbeat -/
@@ -100,6 +150,11 @@ theorem new_match_index_on_same_input :
       = .appendEntriesResp 2 true 2 0 := by decide
 
 /-! ### Non-vacuity -/
+/-- a concrete 3-node run (timeout, vote request delivered, vote delivered) elects node 0:
+    the hypotheses of `election_safety` / `leader_has_quorum` are satisfiable -/
+example : ((run { n := 3 } (initSys { n := 3 })
+    [.timeout 0, .deliver 0 true true true, .deliver 2 true true true]).nodes[0]?).map (·.role)
+      = some Role.leader := by decide
 example : (handleRequestVote { n := 3 } { id := 1 } 1 0 0 0 true true).2 = .requestVoteResp 1 true 1 := by decide
 example : (handleAppendEntries { id := 1 } 1 0 0 0 [⟨1, 7⟩] 1).1.commit = 1 := by decide
 
